@@ -246,7 +246,14 @@ func unitOf(f *FuncInfo, e ast.Expr, depth int) string {
 		return ""
 	case *ast.Ident:
 		obj := info.ObjectOf(x)
-		res := ""
+		// Definitions of the variable that textually precede this use, in order; the unit is the
+		// join over the definitions from the latest one whose block also contains the use (it
+		// dominates the use) onwards — later, conditional redefinitions may or may not have run.
+		type def struct {
+			pos  token.Pos
+			unit string
+		}
+		var defs []def
 		ast.Inspect(f.Decl.Body, func(n ast.Node) bool {
 			switch s := n.(type) {
 			case *ast.AssignStmt:
@@ -255,15 +262,13 @@ func unitOf(f *FuncInfo, e ast.Expr, depth int) string {
 						continue
 					}
 					if len(s.Rhs) == len(s.Lhs) {
-						if u := unitOf(f, s.Rhs[i], depth+1); u != "" {
-							res = u
-						}
+						defs = append(defs, def{s.Pos(), unitOf(f, s.Rhs[i], depth+1)})
 					} else if len(s.Rhs) == 1 {
 						// multi-value: utf8.DecodeLastRuneInString → (rune, size)
 						if call, ok := s.Rhs[0].(*ast.CallExpr); ok {
 							fn := FullName(Callee(info, call))
 							if strings.HasPrefix(fn, "unicode/utf8.Decode") && i == 1 {
-								res = "byte"
+								defs = append(defs, def{s.Pos(), "byte"})
 							}
 						}
 					}
@@ -271,15 +276,48 @@ func unitOf(f *FuncInfo, e ast.Expr, depth int) string {
 			case *ast.RangeStmt:
 				if s.Key != nil && ObjOf(info, s.Key) == obj {
 					if b, ok := info.Types[s.X].Type.Underlying().(*types.Basic); ok && b.Info()&types.IsString != 0 {
-						res = "byte"
+						defs = append(defs, def{s.Pos(), "byte"})
 					}
 				}
 			}
 			return true
 		})
+		res := ""
+		for i := len(defs) - 1; i >= 0; i-- {
+			d := defs[i]
+			if d.pos >= x.Pos() {
+				continue
+			}
+			switch {
+			case d.unit == "":
+			case res == "":
+				res = d.unit
+			case res != d.unit:
+				return "mixed " + d.unit + "/" + res
+			}
+			if blk := smallestBlock(f.Decl.Body, d.pos); blk != nil && blk.Pos() <= x.Pos() && x.Pos() < blk.End() {
+				break
+			}
+		}
 		return res
 	}
 	return ""
+}
+
+// smallestBlock: the innermost block statement or case clause of body that contains pos.
+func smallestBlock(body *ast.BlockStmt, pos token.Pos) ast.Node {
+	var best ast.Node
+	ast.Inspect(body, func(n ast.Node) bool {
+		if n == nil || pos < n.Pos() || pos >= n.End() {
+			return n != nil && n.Pos() <= pos
+		}
+		switch n.(type) {
+		case *ast.BlockStmt, *ast.CaseClause, *ast.CommClause:
+			best = n
+		}
+		return true
+	})
+	return best
 }
 
 // rangeLenInFunc: R-RANGE-LEN — inside `for i, r := range s` (s string) comparisons of the byte
